@@ -10,6 +10,6 @@ CONSTANTS
   MaxPings = 2
   UseSync = FALSE
   Closer = FALSE
-  Defects = {"closeReread", "dispReread", "dispStalePk", "errInSender", "errReread", "errStateRace", "openReread", "pingSelfJoin", "sendNoFinally", "staleFetcher", "syncOpenNoWake"}
+  Defects = {"closeReread", "dispReread", "dispStalePk", "errInSender", "errReread", "errStateRace", "openReread", "pingSelfJoin", "sendNoFinally", "staleFetcher", "syncOpenNoWake", "updDoubleRelease"}
 INVARIANT HistoryOK
 CHECK_DEADLOCK FALSE
